@@ -51,6 +51,9 @@ pub enum ByzEdit {
     /// `level` re-programmed to (beta, k * beta) and the leader's B share of that level shifted by
     /// -(beta^2 - beta) * guess^2, which cancels the sketch check exactly when the randomness equals +-guess
     GuessR { level: u16, beta: String, guess: u8 },
+    /// both correlated-randomness shares (A, B) of aggregator `agg` at `level` set to zero: its round-two sketch
+    /// share A*z + B is then zero whatever the report contains
+    ZeroCorr { agg: u8, level: u16 },
 }
 
 /// What re-evaluation of a rewritten report with the real code shows for one aggregation parameter.
@@ -1512,6 +1515,20 @@ impl<'p, 'c, 'cc, V: SimVdaf<VK>, A: Adapter<V>, const VK: usize> World<'p, 'c, 
                 }
                 if ok && fresh.get_encoded().ok().as_deref() != Some(acc_b) {
                     self.ctx.fail(Violation::new("C13.refusal", format!("{op}|fresh_differs"), format!("an aggregate that first refused a share ({what}, via {op}) and then accumulated the batch differs from the single-pass aggregate")));
+                }
+            }
+            // the collector's side: a mismatched aggregate share among otherwise good ones must be refused by unshard
+            let n = self.n;
+            for pos in [0usize, n - 1] {
+                let mut shares: Vec<V::AggregateShare> = (0..n).map(|_| acc.clone()).collect();
+                shares[pos] = V::AggregateShare::from(bad.clone());
+                match guard("unshard(mismatched aggregate share)", || vdaf.unshard(&apv, shares, outs.len().max(1))) {
+                    Err(v) => self.ctx.fail(v),
+                    Ok(Ok(_)) => self.ctx.fail(Violation::new("C13.refusal", "unshard|accepted_mismatch", format!("unshard accepted an aggregate share (#{pos} of {n}) that is {what}"))),
+                    Ok(Err(_)) => self.ctx.counters.inc("c13.refusals_unshard"),
+                }
+                if n == 1 {
+                    break;
                 }
             }
             let mut a2 = acc.clone();
